@@ -497,6 +497,15 @@ def c10_solver_stream(chk, rng, tier):
                         for dom in (0, 1):
                             lines.append(check_solve.sline(0, 1, 1, flv, cache, fr, w, 0, dom))
         blocks.append(lines)
+    # corpus first: witnesses of the defects found earlier (instance line + S lines)
+    import glob
+    from gen import Inst
+    cinsts = []; cblocks = []
+    for fpath in sorted(glob.glob(os.path.join(VERIF, "corpus", "C10", "*.txt"))):
+        ls = [l for l in open(fpath).read().split("\n") if l.strip()]
+        if ls and ls[0].startswith("I "):
+            cinsts.append(Inst.parse(ls[0])); cblocks.append([ls[0]] + [l for l in ls[1:] if l.startswith("S ")])
+    insts = cinsts + insts; blocks = cblocks + blocks
     impl = check_solve.run_blocks("impl", blocks, "c10s")
     model = check_solve.run_blocks("model", blocks, "c10s")
     opts = check_mdd.oracle_batch([(I.line(), ["O opt"]) for I in insts])
@@ -507,8 +516,13 @@ def c10_solver_stream(chk, rng, tier):
             f = check_solve.kv(li); fm = check_solve.kv(lm)
             ctx = check_solve.describe(I, case, li, lm, optimum=op[0])
             if "CRASH" in f or "HANG" in f or f.get("x") != "1" or f.get("bv") != op[0]:
+                # known finding D10 (circular pruning through unresolved store entries): only where the MODEL of the unchanged code returns the
+                # very same wrong value for this instance and configuration; anything else is reported
+                known = (case.split()[9] == "1" and "CRASH" not in f and "HANG" not in f and f.get("x") == "1" and fm.get("x") == "1"
+                         and f.get("bv") == fm.get("bv") and f.get("bv") != op[0])
                 chk.violation("property", "with%s the dominance checker the solver returns %s (exact=%s); optimum by exhaustive enumeration is %s (%s)"
-                              % ("" if case.split()[9] == "1" else "out", f.get("bv"), f.get("x"), op[0], case), ctx)
+                              % ("" if case.split()[9] == "1" else "out", f.get("bv"), f.get("x"), op[0], case), ctx,
+                              cls=("dominance-circular-pruning" if known else None))
             keys = ["x", "bv", "lb", "ub"] + ([] if fm.get("tie") == "1" else ["explored", "polls"])
             if all(f.get(k) == fm.get(k) for k in keys): sag += 1
             else: sdis.append((I, case, li, lm))
